@@ -34,6 +34,7 @@ type drawCell struct {
 	comb  []int
 	style StyleF
 	fill  bool // content last written by Fill (diagnostics only: named in the finding message)
+	set   bool // the application has stored content here (SetContent or Fill) since the cell came into being
 }
 
 // byFill: a note appended to a finding's message when the cell's content was stored by Fill; the judgement itself
@@ -439,14 +440,15 @@ func execDraw(line string) (res h.Result) {
 	var obs []string
 	emuOps := []string{}
 	block := 0
-	record := func(tag string, bs [][]byte) {
+	record := func(tag string, bs [][]byte) bool {
 		b := joinBlocks(bs)
 		if len(b) == 0 {
-			return
+			return false
 		}
 		obs = append(obs, tag+":"+h.Hex(b))
 		emuOps = append(emuOps, "W "+h.Hex(b))
 		block++
+		return true
 	}
 	if strings.Contains(ti.Clear, "\x0c") {
 		emuOps = append(emuOps, "C ff") // this terminal clears the screen on form feed
@@ -522,6 +524,9 @@ func execDraw(line string) (res h.Result) {
 	lockLead := map[[2]int]bool{} // when it was locked the cell showed the left half of a wide glyph
 	lastDraw := false
 	tags := map[string]bool{}
+	// C13 "repainted by the first Show() after being unlocked": cells that were locked and have been unlocked since the
+	// last draw
+	pendingUnlock := map[[2]int]bool{}
 	afterDraw := func(full bool) {
 		// every cell that may have been repainted in this block
 		if full {
@@ -535,11 +540,38 @@ func execDraw(line string) (res h.Result) {
 		}
 		sh.changed = map[[2]int]bool{}
 	}
-	touch := func(x, y int) {
-		// the cell, and every column a wide rune there covers / covered, may be repainted
-		for dx := -1; dx <= 2; dx++ {
-			sh.changed[[2]int{x + dx, y}] = true
+	// dispRow: what row y of the logical screen displays, column by column, in the property's own terms: a cell shows its
+	// content; a wide rune that fits covers the next column too ("R:" = right half of …); a column so covered shows
+	// nothing of its own.  Two rows differ in a column exactly when that column's appearance differs.
+	dispRow := func(y int) []string {
+		out := make([]string, sh.w)
+		cov := ""
+		for x := 0; x < sh.w; x++ {
+			if cov != "" {
+				out[x], cov = "R:"+cov, ""
+				continue
+			}
+			c := get(x, y)
+			key := fmt.Sprintf("%d/%v/%s", c.main, c.comb, c.style)
+			if wd := widthOf(c.main); wd > 1 && x+wd <= sh.w {
+				cov, key = key, "W:"+key
+			}
+			out[x] = key
 		}
+		return out
+	}
+	// heads: the columns of row y that are cells of their own on the display (not the right half of a wide rune), in
+	// the logical layout and — narrow = true — in the layout in which a wide rune whose right neighbour is locked
+	// occupies one column only (how such a rune is shown, see `cut` below)
+	heads := func(y int, narrow bool) map[int]bool {
+		out := map[int]bool{}
+		for x := 0; x < sh.w; x++ {
+			out[x] = true
+			if wd := widthOf(get(x, y).main); wd > 1 && x+wd <= sh.w && !(narrow && sh.locked[[2]int{x + 1, y}]) {
+				x++
+			}
+		}
+		return out
 	}
 	for i, op := range ops {
 		t := strings.Fields(op)
@@ -560,8 +592,28 @@ func execDraw(line string) (res h.Result) {
 				if st.Bg == ColorNoneU {
 					st.Bg = c.style.Bg
 				}
-				*c = drawCell{m, comb, st, false}
-				touch(x, y)
+				before := dispRow(y)
+				old := *c
+				*c = drawCell{m, comb, st, false, true}
+				// C13 "only cells whose rune, combining runes or style changed, plus the columns covered or uncovered by a
+				// changed wide rune": the cell itself when the store changed its content (a first store counts as a change),
+				// and every column of the row whose displayed appearance this store changed (see dispRow).  A store of
+				// identical content allows nothing.
+				if !old.set || old.main != m || !sameInts(old.comb, comb) || old.style != st {
+					sh.changed[[2]int{x, y}] = true
+					if widthOf(old.main) > 1 || widthOf(m) > 1 {
+						// "the columns covered or uncovered by a changed wide rune", read on the cell buffer: the column right of
+						// a changed cell that held / holds a wide rune, even where another wide rune hides that cell itself
+						sh.changed[[2]int{x + 1, y}] = true
+					}
+				} else {
+					tags["restore-identical"] = true
+				}
+				for i, a := range dispRow(y) {
+					if a != before[i] {
+						sh.changed[[2]int{i, y}] = true
+					}
+				}
 				if widthOf(m) > 1 {
 					tags["wide"] = true
 				}
@@ -580,7 +632,7 @@ func execDraw(line string) (res h.Result) {
 					if ns.Bg == ColorNoneU {
 						ns.Bg = c.style.Bg
 					}
-					*c = drawCell{r, nil, ns, true}
+					*c = drawCell{r, nil, ns, true, true}
 				}
 			}
 			markAllChanged()
@@ -611,8 +663,18 @@ func execDraw(line string) (res h.Result) {
 								lockEpoch[[2]int{k, j}] = epoch
 								lockLead[[2]int{k, j}] = k+1 < sh.w && strings.Contains(lcells[j*sh.w+k+1].flags, "c")
 							}
+							if sh.locked[[2]int{k, j}] {
+								tags["lock-again"] = true
+							}
 							sh.locked[[2]int{k, j}] = true
+							delete(pendingUnlock, [2]int{k, j})
 						} else {
+							wasLocked := sh.locked[[2]int{k, j}]
+							if wasLocked {
+								pendingUnlock[[2]int{k, j}] = true
+							} else {
+								tags["unlock-not-locked"] = true
+							}
 							delete(sh.locked, [2]int{k, j})
 							sh.changed[[2]int{k, j}] = true
 							// an unlocked cell that holds a wide rune is repainted two columns wide: its right half is
@@ -621,8 +683,10 @@ func execDraw(line string) (res h.Result) {
 							if widthOf(get(k, j).main) > 1 {
 								sh.changed[[2]int{k + 1, j}] = true
 							}
-							// an unlocked cell that is the right half of a wide rune is repainted through that rune
-							if k > 0 && widthOf(get(k-1, j).main) > 1 {
+							// a cell that was really locked and is the right half of a wide rune: that rune is repainted (what it
+							// may display depended on the lock of this cell).  "Unlocking" a cell that was not locked changes
+							// nothing about its left neighbour.
+							if wasLocked && k > 0 && widthOf(get(k-1, j).main) > 1 {
 								sh.changed[[2]int{k - 1, j}] = true
 								tags["unlock-right-of-wide"] = true
 							}
@@ -646,9 +710,65 @@ func execDraw(line string) (res h.Result) {
 				sh.dflt = nil
 			}
 			sh.fresh = false
-			record(tag, tty.TakeWrites())
+			wrote := record(tag, tty.TakeWrites())
 			afterDraw(noticed)
 			lastDraw = true
+			var ukv map[string]string
+			var ucells []emuCell
+			if !noticed && (wrote || len(pendingUnlock) > 0) {
+				ukv, ucells, _ = emuNow()
+			}
+			if wrote && !noticed && sh.trusted && ukv["size"] == fmt.Sprintf("%dx%d", sh.w, sh.h) && len(ucells) == sh.w*sh.h {
+				// C13, judged after EVERY Show (a later repaint of the same cell would otherwise hide the write): payload
+				// written in this block only went to cells whose appearance changed since the previous draw
+				for y := 0; y < sh.h; y++ {
+					for x := 0; x < sh.w; x++ {
+						k := [2]int{x, y}
+						if ucells[y*sh.w+x].stamp != block || block <= 1 || sh.allowed[k][block] {
+							continue
+						}
+						if cornerTrick(ti) && y == sh.h-1 && x >= sh.w-2 {
+							continue // the neighbour used to paint the bottom-right corner (the property's own exception)
+						}
+						if orphanErased(ucells, sh.w, x, y) {
+							tags["orphan-half-erased"] = true
+							continue
+						}
+						if len(res.Findings) < 4 {
+							res.Findings = append(res.Findings, h.Finding{Class: "unchanged-cell-written", Msg: fmt.Sprintf(
+								"cell (%d,%d) was written by the Show of op %d (block %d) although it had not changed since the previous draw (locked=%v)", x, y, i, block, sh.locked[k])})
+						}
+					}
+				}
+			}
+			if len(pendingUnlock) > 0 && !noticed {
+				// the first Show after an unlock: every unlocked cell that is a cell of its own on the display must have
+				// received payload in this very block (write stamps of the reference emulator)
+				if ukv["size"] == fmt.Sprintf("%dx%d", sh.w, sh.h) && len(ucells) == sh.w*sh.h {
+					var ks [][2]int
+					for k := range pendingUnlock {
+						ks = append(ks, k)
+					}
+					sort.Slice(ks, func(a, b int) bool { return ks[a][1] < ks[b][1] || (ks[a][1] == ks[b][1] && ks[a][0] < ks[b][0]) })
+					for _, k := range ks {
+						if !inr(k[0], k[1]) || sh.locked[k] || !heads(k[1], false)[k[0]] || !heads(k[1], true)[k[0]] {
+							continue
+						}
+						if cornerTrick(ti) && k[1] == sh.h-1 && k[0] >= sh.w-2 {
+							continue // painted through the insert-character trick: the stamps there are the terminal's shifting
+						}
+						tags["unlock-repaint-judged"] = true
+						if st := ucells[k[1]*sh.w+k[0]].stamp; !wrote || st != block {
+							if len(res.Findings) < 4 {
+								res.Findings = append(res.Findings, h.Finding{Class: "unlocked-cell-not-repainted", Msg: fmt.Sprintf(
+									"cell (%d,%d) was locked and has been unlocked; the first Show after that (op %d, block %d) did not write it (last written in block %d, wrote=%v)",
+									k[0], k[1], i, block, st, wrote)})
+							}
+						}
+					}
+				}
+			}
+			pendingUnlock = map[[2]int]bool{}
 		case "N":
 			scr.Sync()
 			epoch++
@@ -659,6 +779,7 @@ func execDraw(line string) (res h.Result) {
 			record(tag, tty.TakeWrites())
 			afterDraw(true)
 			lastDraw = true
+			pendingUnlock = map[[2]int]bool{}
 			tags["sync"] = true
 		case "RQ":
 			sh.ttyw, sh.ttyh = h.Atoi(t[1]), h.Atoi(t[2])
@@ -682,6 +803,7 @@ func execDraw(line string) (res h.Result) {
 			record(tag, bs)
 			afterDraw(true)
 			lastDraw = true
+			pendingUnlock = map[[2]int]bool{}
 			tags["resize-notify"] = true
 		case "X":
 			emuOps = append(emuOps, "X")
@@ -834,6 +956,10 @@ func execDraw(line string) (res h.Result) {
 					if trick && y == sh.h-1 && x >= sh.w-2 {
 						continue // the neighbour used to paint the bottom-right corner (the property's own exception)
 					}
+					if orphanErased(cells, sh.w, x, y) {
+						tags["orphan-half-erased"] = true
+						continue
+					}
 					addF("unchanged-cell-written", "cell (%d,%d) was last written in block %d although it had not changed before that draw (locked=%v)", x, y, ec.stamp, sh.locked[k])
 				}
 			}
@@ -871,6 +997,37 @@ func mustBeBlank(r int) bool {
 		return true
 	}
 	return false
+}
+
+// orphanErased: the cell received no payload: it was one half of a two-column glyph whose other half has just been
+// overwritten (payload in the neighbouring column, same block), and the terminal itself erased the orphaned half — the
+// cell is empty, is not the right half of anything, and carries the neighbour's stamp.  "Writes cell content only to …"
+// (C13) speaks of the payload the library sends, not of that side effect inside the terminal.
+func orphanErased(cells []emuCell, w, x, y int) bool {
+	ec := cells[y*w+x]
+	if ec.runes != "-" || strings.Contains(ec.flags, "c") {
+		return false
+	}
+	for _, nx := range []int{x - 1, x + 1} {
+		if nx >= 0 && nx < w {
+			if n := cells[y*w+nx]; n.stamp == ec.stamp && n.runes != "-" {
+				return true
+			}
+		}
+	}
+	return false
+}
+
+func sameInts(a, b []int) bool {
+	if len(a) != len(b) {
+		return false
+	}
+	for i := range a {
+		if a[i] != b[i] {
+			return false
+		}
+	}
+	return true
 }
 
 func validScalar(r int) bool { return r >= 0 && r <= 0x10FFFF && !(r >= 0xD800 && r <= 0xDFFF) }
@@ -954,8 +1111,61 @@ func genDrawMatrix(g *h.Gen) {
 			ops = append(ops, "W", "S 0 0 98 - "+StyleF{Fg: val(2), Bg: val(0)}.String(), "W", "W")
 			ops = append(ops, fitOps(name, cols)...)
 			g.Emit("draw %s %d 8 5 %s", withVariant(name), tc, strings.Join(ops, "; "))
+			genDrawColourSweep(g, name, tc)
 		}
 	}
+}
+
+// drawSweepPalette: every basic / bright palette index and a sample of the 256-colour table (cube corners, cube interior,
+// both ends of the grey ramp, the entries either side of every boundary 15|16, 87|88, 231|232).
+var drawSweepPalette = []int{16, 17, 21, 46, 51, 59, 87, 88, 100, 124, 145, 196, 201, 226, 231, 232, 233, 240, 244, 250, 254, 255}
+
+// drawSweepRGB: direct colours: the primaries, black / white, the exact values of palette entries 1, 8, 9 and 244
+// (so that fitting to the table has an exact answer), and values between entries.
+var drawSweepRGB = [][3]int32{{0, 0, 0}, {255, 255, 255}, {255, 0, 0}, {0, 255, 0}, {0, 0, 255}, {128, 0, 0}, {128, 128, 128}, {192, 192, 192},
+	{127, 127, 127}, {1, 2, 3}, {250, 128, 114}, {95, 135, 175}, {8, 8, 8}, {238, 238, 238}, {18, 52, 86}, {254, 254, 1}}
+
+// genDrawColourSweep: one fixed case per ECMA entry and colour mode in which the foreground, the background and the
+// underline colour each run over ALL of palette 0..15, the sample drawSweepPalette of 16..255 and the direct colours
+// drawSweepRGB, one cell per colour.  On an entry whose colour table holds 8, 16 or 88 entries every index at or above
+// the table size has to be fitted to the nearest table entry (property C01: "nearest palette entry otherwise"); the
+// oracle computes that entry with tcell.FindColor on a palette of its own (colSel), never through the screen.
+func genDrawColourSweep(g *h.Gen, name string, tc int) {
+	var colours []uint64
+	for i := 0; i < 16; i++ {
+		colours = append(colours, uint64(tcell.PaletteColor(i)))
+	}
+	for _, i := range drawSweepPalette {
+		colours = append(colours, uint64(tcell.PaletteColor(i)))
+	}
+	for _, c := range drawSweepRGB {
+		colours = append(colours, uint64(tcell.NewRGBColor(c[0], c[1], c[2])))
+	}
+	const w = 18
+	rows := (len(colours) + w - 1) / w
+	var ops []string
+	cols := map[uint64]bool{}
+	put := func(x, y, m int, f StyleF) {
+		cols[f.Fg], cols[f.Bg], cols[f.UlColor] = true, true, true
+		ops = append(ops, fmt.Sprintf("S %d %d %d - %s", x, y, m, f))
+	}
+	black, silver := uint64(tcell.PaletteColor(0)), uint64(tcell.PaletteColor(7))
+	for i, c := range colours {
+		x, y := i%w, i/w
+		put(x, y, 'a'+i%26, StyleF{Fg: c, Bg: black})
+		put(x, rows+y, 'A'+i%26, StyleF{Fg: silver, Bg: c})
+		put(x, 2*rows+y, '0'+i%10, StyleF{Fg: silver, Bg: black, UlStyle: 1 + i%5, UlColor: c})
+	}
+	// the same colours again after the first frame (a colour fitted once may be remembered: the second use must agree)
+	ops = append(ops, "W")
+	for i, c := range colours {
+		if i%3 == 0 {
+			put(i%w, i/w, 'z', StyleF{Fg: colours[(i+1)%len(colours)], Bg: c})
+		}
+	}
+	ops = append(ops, "W")
+	ops = append(ops, fitOps(name, cols)...)
+	g.Emit("draw %s %d %d %d %s", withVariant(name), tc, w, 3*rows, strings.Join(ops, "; "))
 }
 
 // genDrawLockedWide: directed histories for the locked clause of C13 — a wide rune left of a locked cell that itself holds
@@ -981,9 +1191,227 @@ func genDrawLockedWide(g *h.Gen) {
 	}
 }
 
+// genDrawWideCover: directed multi-frame histories around a column that is covered by a wide rune and later uncovered
+// (C01: the display equals the logical screen after every Show; C13: nothing else is written).  Frame 1 paints a narrow
+// cell at x+1; frame 2 puts a wide rune at x (x+1 is now hidden) ; frame 3 makes the wide rune go away or stores into the
+// hidden column, by every route the API offers:
+//   fill-same   Fill with exactly the rune and style x+1 held           clear-blank  x+1 held a blank: Clear()
+//   wide-left   another wide rune at x-1 (it covers x, x+1 reappears)    narrow       SetContent of a narrow rune at x
+//   hid-same / hid-diff   SetContent at x+1 only, identical / different content (the wide rune stays: nothing to paint)
+//   row-same    every column of the row stored again with what it holds (an application redrawing the line)
+//   wide-same   the wide rune itself stored again
+// then Shows twice; some variants go on to remove the wide rune after the store into the hidden column.  Every x up to
+// the last two columns, first and last row, with a locked cell elsewhere in the row / the hidden column locked meanwhile.
+func genDrawWideCover(g *h.Gen) {
+	const w, hh = 6, 2
+	d := "0,0,0,0,0,-,-"
+	st1 := StyleF{Fg: uint64(tcell.PaletteColor(2)), Bg: uint64(tcell.PaletteColor(4))}.String()
+	st2 := StyleF{Fg: uint64(tcell.PaletteColor(3)), Bg: uint64(tcell.PaletteColor(0)), Attrs: 1}.String()
+	n := 0
+	var ents []string
+	for _, name := range []string{"xterm-256color", "linux", "sun-color", "vt220", "screen"} {
+		if terminfo.VerifEntries()[name] != nil {
+			ents = append(ents, name)
+		}
+	}
+	for pass := 0; pass < 2; pass++ { // every combination on two of the entries, in rotation
+		for _, x := range []int{0, 1, 2, w - 3, w - 2} {
+			for _, variant := range []string{"fill-same", "clear-blank", "wide-left", "narrow", "hid-same", "hid-diff", "row-same", "wide-same"} {
+				for _, lock := range []string{"", "other", "hidden"} {
+					n++
+					name := ents[(n+2*pass)%len(ents)]
+					if lock != "" && (n+pass)%3 != 0 { // the lock variants on a third of the combinations
+						continue
+					}
+					y := (n / 3) % hh
+					under, ust := 'q', st1
+					if variant == "clear-blank" {
+						under, ust = ' ', d
+					}
+					var ops []string
+					S := func(x, m int, st string) { ops = append(ops, fmt.Sprintf("S %d %d %d - %s", x, y, m, st)) }
+					if variant == "clear-blank" {
+						ops = append(ops, "F 32 "+d)
+					}
+					if x > 0 {
+						S(x-1, 'p', st2)
+					}
+					S(x+1, int(under), ust)
+					if x+2 < w {
+						S(x+2, 'r', st2)
+					}
+					ops = append(ops, "W")
+					S(x, 0x4e16, st2)
+					ops = append(ops, "W")
+					lx := -1
+					switch lock {
+					case "other":
+						lx = (x + 3) % w
+					case "hidden":
+						lx = x + 1
+					}
+					if lx >= 0 {
+						ops = append(ops, fmt.Sprintf("L %d %d 1 1 1", lx, y))
+					}
+					switch variant {
+					case "fill-same":
+						ops = append(ops, fmt.Sprintf("F %d %s", under, ust))
+					case "clear-blank":
+						ops = append(ops, "F 32 "+d)
+					case "wide-left":
+						if x == 0 {
+							continue
+						}
+						S(x-1, 0x754c, st1)
+					case "narrow":
+						S(x, 'n', st2)
+					case "hid-same":
+						S(x+1, int(under), ust)
+					case "hid-diff":
+						S(x+1, 'D', st2)
+					case "row-same":
+						for c := 0; c < w; c++ {
+							switch {
+							case c == x:
+								S(c, 0x4e16, st2)
+							case c == x+1:
+								S(c, int(under), ust)
+							case c == x-1 && x > 0:
+								S(c, 'p', st2)
+							case c == x+2:
+								S(c, 'r', st2)
+							}
+						}
+					case "wide-same":
+						S(x, 0x4e16, st2)
+					}
+					ops = append(ops, "W", "W")
+					if lx >= 0 {
+						ops = append(ops, fmt.Sprintf("L %d %d 1 1 0", lx, y), "W")
+					}
+					if strings.HasPrefix(variant, "hid-") || variant == "row-same" || variant == "wide-same" {
+						// … and now the wide rune goes: the hidden column has to show what was stored there
+						if n%2 == 0 {
+							S(x, 'n', st2)
+						} else {
+							ops = append(ops, fmt.Sprintf("F %d %s", under, ust))
+						}
+						ops = append(ops, "W", "W")
+					}
+					cols := map[uint64]bool{}
+					for _, f := range []string{st1, st2} {
+						sf := ParseStyleF(f)
+						cols[sf.Fg], cols[sf.Bg] = true, true
+					}
+					ops = append(ops, fitOps(name, cols)...)
+					g.Emit("draw %s %d %d %d %s", withVariant(name), n%2, w, hh, strings.Join(ops, "; "))
+				}
+			}
+		}
+	}
+}
+
+// genDrawLockHistories: directed lock / unlock region sequences (C13 "never written while locked and repainted by the
+// first Show() after being unlocked"; the statement knows one lock state per cell, not a nesting depth): the same region
+// locked twice then unlocked once, overlapping regions locked one after the other then unlocked by one call covering
+// both, an unlock of cells that were never locked, lock - unlock - lock, an unlock of part of a region; content changes
+// while locked; narrow and wide runes inside, and a wide rune just left of the region.
+func genDrawLockHistories(g *h.Gen) {
+	const w, hh = 6, 2
+	d := "0,0,0,0,0,-,-"
+	st := StyleF{Fg: uint64(tcell.PaletteColor(6)), Bg: uint64(tcell.PaletteColor(0))}.String()
+	n := 0
+	var ents []string
+	for _, name := range []string{"xterm-256color", "linux", "sun-color", "vt220"} {
+		if terminfo.VerifEntries()[name] != nil {
+			ents = append(ents, name)
+		}
+	}
+	for pass := 0; pass < 2; pass++ { // every combination on two of the entries, in rotation
+		for _, x := range []int{0, 1, 3, w - 2} {
+			for _, variant := range []string{"twice", "overlap", "never", "relock", "partial", "thrice-two-unlocks"} {
+				for _, inner := range []int{'k', 0x4e16} { // what the region's first cell holds
+					for _, left := range []int{'l', 0x754c} { // what the cell left of the region holds
+						n++
+						name := ents[(n+2*pass+1)%len(ents)]
+						if left != 'l' && (x == 0 || n%2 == 0) {
+							continue
+						}
+						y := n % hh
+						var ops []string
+						S := func(x, m int, s string) { ops = append(ops, fmt.Sprintf("S %d %d %d - %s", x, y, m, s)) }
+						L := func(x, lw, lock int) { ops = append(ops, fmt.Sprintf("L %d %d %d 1 %d", x, y, lw, lock)) }
+						if x > 0 {
+							S(x-1, left, d)
+						}
+						S(x, inner, d)
+						if x+2 < w {
+							S(x+2, 'm', st)
+						}
+						ops = append(ops, "W")
+						change := func() { // content changes inside (and beside) the region
+							S(x, 'K', st)
+							S(x+1, 'J', st)
+						}
+						switch variant {
+						case "twice":
+							L(x, 2, 1)
+							change()
+							ops = append(ops, "W")
+							L(x, 2, 1)
+							L(x, 2, 0)
+						case "overlap":
+							L(x, 2, 1)
+							L(x+1, 2, 1)
+							change()
+							ops = append(ops, "W")
+							L(x, 3, 0)
+						case "never":
+							change()
+							ops = append(ops, "W")
+							L(x, 2, 0)
+						case "relock":
+							L(x, 2, 1)
+							L(x, 2, 0)
+							L(x, 2, 1)
+							change()
+							ops = append(ops, "W", "W")
+							L(x, 2, 0)
+						case "partial":
+							L(x, 2, 1)
+							L(x, 2, 1)
+							change()
+							ops = append(ops, "W")
+							L(x+1, 1, 0)
+							ops = append(ops, "W")
+							L(x, 1, 0)
+						case "thrice-two-unlocks":
+							L(x, 2, 1)
+							L(x, 1, 1)
+							L(x, 2, 1)
+							change()
+							L(x, 2, 0)
+							ops = append(ops, "W")
+							L(x, 2, 0)
+						}
+						ops = append(ops, "W", "W")
+						cols := map[uint64]bool{}
+						sf := ParseStyleF(st)
+						cols[sf.Fg], cols[sf.Bg] = true, true
+						ops = append(ops, fitOps(name, cols)...)
+						g.Emit("draw %s %d %d %d %s", withVariant(name), n%2, w, hh, strings.Join(ops, "; "))
+					}
+				}
+			}
+		}
+	}
+}
+
 func genDraw(g *h.Gen) {
 	genDrawMatrix(g)
 	genDrawLockedWide(g)
+	genDrawWideCover(g)
+	genDrawLockHistories(g)
 	r := g.R
 	ents := ecmaEntries()
 	n := g.N(1200, 40000)
@@ -1211,6 +1639,6 @@ func init() {
 		Rule: "every code point (quick: all below U+3000, every 61st above, boundary values; thorough: all 0x110000) and out-of-range rune values as primary cell content in the first, a middle and the last column; UTF-8 and ISO8859-1 locales; the same through Fill, one rune per 3x1 screen (quick: all below U+0370, the format/control blocks, boundary and out-of-range values; thorough: all below U+3000, every zero-width or must-be-blank code point, every 61st); plus base x combining-mark cells in UTF-8 and five 8-bit charsets (SUB-answering and error-answering charmaps); 12 cells per case; every case is non-trivial",
 		Gen:  genDrawCP, Exec: execDraw})
 	h.Register(&h.Engine{Name: "draw",
-		Rule: "a fixed attribute/underline/colour/hyperlink matrix for every ECMA-family entry x direct colour on/off, then random draw histories (4-36 ops) on a real terminfo screen over a fake tty, every ECMA-family entry, direct colour on/off, sizes 2..7 x 1..4; distinct = distinct line; non-trivial = at least one in-range SetContent",
+		Rule: "a fixed attribute/underline/colour/hyperlink matrix and a colour sweep (fg, bg, underline colour over all of palette 0..15, 22 indices of 16..255, 16 direct colours) for every ECMA-family entry x direct colour on/off; directed histories: wide rune beside a locked cell, a column covered by a wide rune and uncovered again by Fill / Clear / another wide rune / a narrow store, stores of identical and different content into the hidden column, lock regions locked twice / overlapping / never locked / re-locked / partly unlocked; then random draw histories (4-36 ops) on a real terminfo screen over a fake tty, every ECMA-family entry, direct colour on/off, sizes 2..7 x 1..4; distinct = distinct line; non-trivial = at least one in-range SetContent",
 		Gen:  genDraw, Exec: execDraw})
 }
